@@ -98,13 +98,18 @@ def _trace_cfg():
 _BENCH = {}
 
 
-def bench_for(eps):
+def bench_for(eps, speed=None):
+    """speed None: real USBDevice (full speed, 12 MHz); 0 / 1: packet-layer assembly with the link speed pinned to
+    high / full speed at 60 MHz (see usb2ep_dev.make_assembly)."""
     use_repo()
     from ..hosts import usb2ep_dev as ud
-    key = repr(eps)
+    key = repr((eps, speed))
     if key not in _BENCH:
-        _BENCH[key] = ud.Bench(eps)
+        _BENCH[key] = ud.Bench(eps, speed=speed)
     return _BENCH[key]
+
+
+SPEED_NAME = {None: "FS device (12 MHz)", 0: "HS assembly (60 MHz)", 1: "FS assembly (60 MHz)"}
 
 
 class Meta(dict):
@@ -117,13 +122,14 @@ def run_jobs(rep, jobs):
     """jobs: list of dicts {eps, script, meta, seed, gap, stall}.  Returns [(trace_record, meta)]."""
     items = []
     for j in jobs:
-        b = bench_for(j["eps"])
+        b = bench_for(j["eps"], j.get("speed"))
         c0 = b.cycles
         ev, times, durs = b.run(j["script"], seed=j.get("seed", 1), gap_prob=j.get("gap", 0.0),
                                 stall_prob=j.get("stall", 0.0))
         rep.add_eval(b.cycles - c0)
         meta = Meta(j["meta"])
         meta["eps"] = j["eps"]
+        meta["timing"] = SPEED_NAME[j.get("speed")]
         meta["times"] = times
         items.append(({"cfg": b.cfg(), "steps": ev, "focus": "", "base": {"bus": [], "str": []}}, meta))
     return items
@@ -605,9 +611,21 @@ def check_C11(rep):
             jobs.append({"eps": in_eps(m), "script": ops, "seed": rep.seed, "meta": dict(meta, max=m)})
     for m in ((2, 3) if quick else (2, 3, 4, 8)):
         for ops, meta in gen_in_timing(m):
-            if quick and m == 3 and meta["where"] not in ("ack", "retry_in2"):
+            if quick and m == 3 and not (meta["where"] == "ack" or
+                                         (meta["where"] == "retry_in2" and meta["shape"] in ("full", "short"))):
+                continue
+            if quick and m == 2 and meta["where"] == "retry_out" and meta["shape"] in ("full_last", "flush"):
                 continue
             jobs.append({"eps": in_eps(m), "script": ops, "seed": rep.seed, "meta": dict(meta, max=m)})
+    # the same endpoint in the packet-layer assembly with the link speed pinned to high speed (1-cycle inter-packet delay)
+    for m in ((2,) if quick else (2, 3, 8)):
+        for ops, meta in gen_in_structured(m):
+            if "ctl" in meta["between"] or (quick and (meta["lost_at"] is None or meta["stall"])):
+                continue
+            jobs.append({"eps": in_eps(m), "script": ops, "seed": rep.seed, "speed": 0, "meta": dict(meta, max=m)})
+        for ops, meta in gen_in_timing(m):
+            if not quick or meta["where"] == "ack" or (meta["where"] == "retry_in2" and meta["shape"] in ("full", "short")):
+                jobs.append({"eps": in_eps(m), "script": ops, "seed": rep.seed, "speed": 0, "meta": dict(meta, max=m)})
     rnd = [(2, 10), (3, 8), (4, 8), (8, 8), (16, 4), (64, 2)] if quick else \
           [(2, 60), (3, 60), (4, 60), (5, 40), (8, 60), (16, 40), (32, 20), (64, 20)]
     for m, n in rnd:
@@ -787,6 +805,27 @@ def _prefill(h, fill):
     h.held = fill
 
 
+def gen_out_space_sweep(m, d):
+    """Free space at the OUT token in {len-2, len-1, len, len+1} for a max-size and a short packet, consumer stalled
+    (at high-speed response timing the handshake is decided in the very cycle the packet's last byte is written, so
+    "exactly the last byte does not fit" is its own case); then PING, the consumer drains, and the host repeats the
+    packet with the same toggle (accepted now if it was NAKed, skipped if it had been ACKed)."""
+    out = []
+    for ln in sorted({m, max(1, m - 1), 1}):
+        for free in (ln - 2, ln - 1, ln, ln + 1):
+            if free < 0 or free > d:
+                continue
+            h = OutHost(None, m, d, clean=False)
+            h.val = 16 * ln + free
+            _prefill(h, d - free)
+            pl = h.payload(ln)
+            h.ops += [("out", 1, h.tog, pl, True), ("ping", 1), ("cons", 1, ("ready",)), ("idle", d + 6),
+                      ("ping", 1), ("out", 1, h.tog, pl, True), ("idle", ln + 4),
+                      ("out", 1, h.tog ^ 1, h.payload(1), True), ("end",)]
+            out.append((h.ops, {"gen": "space-sweep", "len": ln, "free": free, "class": "sweep"}))
+    return out
+
+
 def gen_out_timing(m, d):
     """Systematic offset sweeps on the consumer side: `ready` rising / falling / a few beats taken at every cycle
     offset from the OUT (or PING) token to after the handshake.  Class `clean`: the packet fits whatever the consumer
@@ -933,6 +972,27 @@ def check_C13(rep):
     for m, d in ((2, 3), (4, 7)) if quick else ((2, 3), (3, 5), (4, 7), (4, 8), (8, 15)):
         for ops, meta in gen_out_timing(m, d):
             jobs.append({"eps": out_eps(m, d), "script": ops, "seed": rep.seed, "meta": dict(meta, max=m, depth=d)})
+    # the same endpoint in the packet-layer assembly with pinned link speed: high-speed inter-packet timing (handshake
+    # requested one cycle after the packet ends) and full-speed timing at 60 MHz
+    for speed in (0, 1):
+        for m, d in ((2, 3), (4, 7), (8, 15)) if quick else ((2, 3), (3, 5), (4, 7), (4, 8), (8, 15), (64, 127), (64, 100)):
+            for ops, meta in gen_out_space_sweep(m, d):
+                jobs.append({"eps": out_eps(m, d), "script": ops, "seed": rep.seed, "speed": speed,
+                             "meta": dict(meta, max=m, depth=d)})
+        for m, d in ((4, 7),) if quick else ((2, 3), (4, 7), (8, 15)):
+            for ops, meta in gen_out_ping_sweep(m, d):
+                jobs.append({"eps": out_eps(m, d), "script": ops, "seed": rep.seed, "speed": speed,
+                             "meta": dict(meta, max=m, depth=d)})
+            if speed == 0 or not quick:
+                for ops, meta in gen_out_timing(m, d):
+                    jobs.append({"eps": out_eps(m, d), "script": ops, "seed": rep.seed, "speed": speed,
+                                 "meta": dict(meta, max=m, depth=d)})
+        for m, d, n in ((4, 7, 3), (8, 15, 2)) if quick else ((2, 3, 20), (4, 7, 30), (8, 15, 30), (64, 127, 10)):
+            for i in range(n):
+                ph = rep.rng.choice([(0.0, 0.0), (0.25, 0.0), (0.0, 0.3)])
+                jobs.append({"eps": out_eps(m, d), "script": gen_out_clean(rep.rng, m, d, 14), "speed": speed,
+                             "seed": rep.rng.randrange(1 << 30), "gap": ph[0], "stall": ph[1],
+                             "meta": {"gen": "random-clean", "max": m, "depth": d, "class": "clean"}})
     # witness classes
     for m, d in ((4, 7), (8, 15), (2, 3)) if quick else ((2, 3), (3, 5), (4, 7), (8, 15), (8, 20), (16, 31)):
         for i in range(2 if quick else 6):
